@@ -193,3 +193,40 @@ theorem simplestFromFloat_spec (eb mb bits : ℕ) :
       rfl
 
 end Dashu.Model.Ratio
+
+namespace Dashu.Model.Ratio
+open Dashu.Model
+
+/-- a reduced pair has the least denominator and numerator among the pairs with its value -/
+theorem reduced_minimal (a : Q) (ha : Reduced a) (p : ℤ) (s : ℕ) (hs : 0 < s)
+    (h : a.val = (p : ℚ) / s) : a.den ≤ s ∧ a.num.natAbs ≤ p.natAbs := by
+  have hd : (0 : ℚ) < a.den := by exact_mod_cast ha.den_pos
+  have hsq : (0 : ℚ) < s := by exact_mod_cast hs
+  rw [Q.val_def, div_eq_div_iff hd.ne' hsq.ne'] at h
+  have hz : a.num * (s : ℤ) = p * (a.den : ℤ) := by exact_mod_cast h
+  have hcop : IsCoprime (a.den : ℤ) a.num := ha.isCoprime.symm
+  have hdvd : (a.den : ℤ) ∣ (s : ℤ) := by
+    apply hcop.dvd_of_dvd_mul_left
+    exact ⟨p, by linear_combination hz⟩
+  obtain ⟨c, hc⟩ := hdvd
+  have hdz : (0 : ℤ) < a.den := by exact_mod_cast ha.den_pos
+  have hsz : (0 : ℤ) < s := by exact_mod_cast hs
+  have hcpos : 0 < c := by
+    by_contra hcon
+    have : c ≤ 0 := by omega
+    have : (a.den : ℤ) * c ≤ 0 := Int.mul_nonpos_of_nonneg_of_nonpos hdz.le this
+    omega
+  have hp : p = a.num * c := by
+    have : (a.den : ℤ) * (a.num * c) = (a.den : ℤ) * p := by
+      rw [hc] at hz; linarith
+    exact (Int.eq_of_mul_eq_mul_left hdz.ne' this).symm
+  constructor
+  · have : (a.den : ℤ) * 1 ≤ (a.den : ℤ) * c := Int.mul_le_mul_of_nonneg_left (by omega) hdz.le
+    have : (a.den : ℤ) ≤ s := by rw [hc]; linarith
+    exact_mod_cast this
+  · rw [hp, Int.natAbs_mul]
+    have : 1 ≤ c.natAbs := by omega
+    calc a.num.natAbs = a.num.natAbs * 1 := (Nat.mul_one _).symm
+      _ ≤ a.num.natAbs * c.natAbs := Nat.mul_le_mul_left _ this
+
+end Dashu.Model.Ratio
